@@ -14,7 +14,8 @@ def has_arith(e):
     if k == "bin":
         return e[1] in ARITH or has_arith(e[2]) or has_arith(e[3])
     if k == "un":
-        return e[1] == "-" or has_arith(e[2])
+        # ~ is width-dependent as well: Verilog extends the operand to the context before inverting
+        return e[1] in ("-", "~") or has_arith(e[2])
     if k == "tern":
         return has_arith(e[1]) or has_arith(e[2]) or has_arith(e[3])
     if k in ("cat",):
@@ -88,19 +89,88 @@ def drivers(sim):
     return out
 
 
-def width_sensitive_arith(sim, names):
+def ids_in(e, out):
+    if isinstance(e, tuple):
+        if e[0] == "id":
+            out.add(e[1])
+            return
+        if e[0] in ("index", "part", "mempart"):
+            out.add(e[1])
+        for x in e[1:]:
+            if isinstance(x, (tuple, list)):
+                ids_in(x, out)
+    elif isinstance(e, list):
+        for x in e:
+            ids_in(x, out)
+
+
+def cone(sim, names, compared):
+    """The driver statements that can have produced a FIRST disagreement on `names`: their own drivers, and transitively the
+    drivers of every identifier those read that the comparison does not observe (lowering-made signals: array_muxed,
+    slice_proxy, memory address / data registers) or that disagrees in the same tick. Identifiers that are compared and agree
+    are not followed: their value was checked.  -> (list of (rhs, guards, lhs), set of memories read or written)"""
     d = drivers(sim)
-    for n in names:
-        for rhs, guards, lhs in d.get(n, []):
-            if sensitive(rhs) or any(has_arith(g) for g in guards):
-                return True
-            if lhs[0] in ("index", "mempart") and has_arith(lhs[2]):
-                return True
+    names = set(names)
+    seen, todo, out, mems = set(), list(names), [], set()
+    while todo:
+        n = todo.pop()
+        if n in seen:
+            continue
+        seen.add(n)
+        if n in sim.mems:
+            mems.add(n)
+        for drv in d.get(n, []):
+            out.append(drv)
+            ids = set()
+            ids_in(drv[0], ids)
+            ids_in(drv[1], ids)
+            if drv[2][0] in ("index", "mempart"):
+                ids_in(drv[2][2], ids)
+            for i in ids:
+                if i in sim.mems:
+                    mems.add(i)
+                if i not in seen and (i not in compared or i in names):
+                    todo.append(i)
+    return out, mems
+
+
+def width_sensitive_arith(cone_drivers):
+    for rhs, guards, lhs in cone_drivers:
+        if sensitive(rhs) or any(has_arith(g) for g in guards):
+            return True
+        if lhs[0] in ("index", "mempart") and has_arith(lhs[2]):
+            return True
     return False
 
 
-def multi_clock_memory(sim):
-    """memory name -> set of clocks of the posedge blocks that touch it"""
+def lossy_array_proxy(sim, cone_drivers):
+    """Migen gives an Array selection (max of the element widths, signed if any element is): an unsigned element as wide as that
+    does not fit the signed proxy the lowering creates (the FHDL simulator returns the element itself, unwrapped)."""
+    for rhs, guards, lhs in cone_drivers:
+        if lhs[0] != "id" or not lhs[1].startswith(("array_muxed", "basiclowerer_array_muxed", "t_array_muxed")):
+            continue
+        d = sim.decl.get(lhs[1])
+        if not d or not d["signed"]:
+            continue
+        w, s = sim.size_sign(rhs)
+        if not s and w >= d["width"]:
+            return True
+    return False
+
+
+def no_change_partial_we(sim, cone_drivers):
+    """NO_CHANGE memory port with write-enable granularity: LiteX emits `if (!we)` (no read when ANY lane is written), Migen's
+    MemoryToArray - what the FHDL simulator executes - reads unless ALL lanes are written (`~we` as a condition)."""
+    for rhs, guards, lhs in cone_drivers:
+        if rhs[0] == "index" and rhs[1] in sim.mems:
+            for g in guards:
+                if g[0] == "un" and g[1] == "!" and sim.size_sign(g[2])[0] > 1:
+                    return True
+    return False
+
+
+def multi_clock_memory(sim, mems=None):
+    """True if one of `mems` (default: any memory) is touched by posedge blocks of different clocks"""
     clocks = {}
 
     def touch(stmts, clk):
@@ -127,4 +197,4 @@ def multi_clock_memory(sim):
                         _mem_refs(y, clk)
     for clk, block in sim.m["syncs"]:
         touch(block, clk)
-    return any(len(c) > 1 for c in clocks.values())
+    return any(len(c) > 1 for m_, c in clocks.items() if mems is None or m_ in mems)
